@@ -47,6 +47,15 @@ def mtbcd_task(T, fit_intercept, warm, P=1, anderson=False):
     log = []
     cnt = [0]
     xw_box = [None]
+    fc = [0]
+
+    def uf(f, *args):
+        """interface value: an uninterpreted function of the arguments; in the Anderson scenario (whose obligations need no functional
+        consistency) a fresh constant, so that the queries stay in pure real arithmetic (counter-models are then found by nlsat)"""
+        if anderson:
+            fc[0] += 1
+            return z3.Real(f'{f.name()}_call{fc[0]}')
+        return f(*args)
 
     class Datafit:
         def initialize(self, X_, Y_):
@@ -56,22 +65,22 @@ def mtbcd_task(T, fit_intercept, warm, P=1, anderson=False):
             return np.array([R(t) for t in lip], dtype=object)
 
         def gradient_j(self, X_, Y_, W_, XW_, j):
-            return np.array([R(GRAD[int(j)][k](*flat(XW_))) for k in range(TK)], dtype=object)
+            return np.array([R(uf(GRAD[int(j)][k], *flat(XW_))) for k in range(TK)], dtype=object)
 
         def intercept_update_step(self, Y_, XW_):
-            return np.array([R(ISTEP[k](*flat(XW_))) for k in range(TK)], dtype=object)
+            return np.array([R(uf(ISTEP[k], *flat(XW_))) for k in range(TK)], dtype=object)
 
         def value(self, Y_, W_, XW_):
             log.append(('datafit.value', flat(XW_)))
             xw_box[0] = XW_                     # the solver's model-fit buffer (the last objective is evaluated on it before return)
-            return R(VAL(*flat(XW_)))
+            return R(uf(VAL, *flat(XW_)))
 
     class Penalty:
         def is_penalized(self, n):
             return np.ones(n, dtype=bool)
 
         def subdiff_distance(self, W_, grad, ws):
-            out = np.array([R(SC[int(j)](*(flat(W_[int(j)]) + flat(grad[k])))) for k, j in enumerate(ws)], dtype=object)
+            out = np.array([R(uf(SC[int(j)], *(flat(W_[int(j)]) + flat(grad[k])))) for k, j in enumerate(ws)], dtype=object)
             log.append(('subdiff_distance', [flat(W_[r]) for r in range(W_.shape[0])], [flat(grad[k]) for k in range(len(ws))],
                         [int(j) for j in ws], [L(v) for v in out]))
             return out
@@ -84,7 +93,7 @@ def mtbcd_task(T, fit_intercept, warm, P=1, anderson=False):
             r = W_.shape[0]
             log.append(('penalty.value', r, flat(W_)))
             f = PEN.get(r)
-            return R(f(*flat(W_))) if f is not None else R(z3.Real(f'penalty_value_on_{r}_rows'))
+            return R(uf(f, *flat(W_))) if f is not None else R(z3.Real(f'penalty_value_on_{r}_rows'))
 
     class RowNorm:
         """||row||: the solver only ever tests it against 0 (is the row in the support?) -- decided without square roots:
@@ -156,6 +165,8 @@ def mtbcd_task(T, fit_intercept, warm, P=1, anderson=False):
     def run():
         del log[:]
         cnt[0] = 0
+        fc[0] = 0
+        xw_box[0] = None
         Xs = mat(X)
         Y = mat([[z3.Real(f'Y{i}_{k}') for k in range(TK)] for i in range(N)])
         if anderson:
@@ -184,6 +195,8 @@ def mtbcd_task(T, fit_intercept, warm, P=1, anderson=False):
         else:
             XW = None
         if anderson:
+            if XWret is None:
+                return cs                 # stopped at the first check: no epoch, no extrapolation on this path
             fw = fitof(Wl)
             pv = [c for c in calls if c[0] == 'penalty.value']
             cs.append(('anderson:inv-after-the-extrapolation-step:XW==X.W[:n_features]+W[-1]', [],
@@ -220,7 +233,11 @@ def mtbcd_task(T, fit_intercept, warm, P=1, anderson=False):
         return cs
     # warm start: non-zero rows (a zero row is the cold start's case) -- keeps the number of paths down
     pre = zpre([tol > 0] + [t > 0 for t in lip] + ([W0[r][0] > 0 for r in range(rows)] if warm else []) +
-               ([sum(z3.Real(f'solve{i}') for i in range(5)) != 0] if anderson else []))
+               ([sum(z3.Real(f'solve{i}') for i in range(5)) != 0] if anderson else []) +
+               # Anderson scenario: every epoch moves every coefficient (a zero move only skips an update by zero): keeps the six
+               # epochs on one path
+               ([z3.Real(f'prox1_{k}') != 0 for k in range(TK)] +
+                [z3.Real(f'prox{e + 1}_{k}') != z3.Real(f'prox{e}_{k}') for e in range(1, 6) for k in range(TK)] if anderson else []))
     check_contract(T, f'MultiTaskBCD._solve[fit_intercept={fit_intercept},{"warm" if warm else "cold"}]', run, pre, post, strength='B',
                    safety=False, replay=dict(fn='contracts.mtbcd:replay', args=dict(fit_intercept=fit_intercept)))
 
